@@ -38,8 +38,9 @@ pub fn program_halted(w: &World) -> bool {
         return false;
     }
     if w.sim.flags.use_real_traps {
-        let lo = os_label("TRAP_HALT").unwrap_or(0);
-        (lo..lo + 4).contains(&w.sim.pc)
+        // the OS halt routine switches the clock off by storing to MCR: the observer of the run-style
+        // call that just returned shows that store (a host-side MCR clear leaves no such mark)
+        w.sim.observer.get_mem_accesses(0xFFFE).written()
     } else {
         w.sim.mem[w.sim.pc].get() == 0xF025
     }
